@@ -930,3 +930,140 @@ func TestDeterminism(t *testing.T) {
 
 func sqlNullString(s string) sql.NullString { return sql.NullString{String: s, Valid: true} }
 func sqlNullInt64(i int64) sql.NullInt64    { return sql.NullInt64{Int64: i, Valid: true} }
+
+func TestDDLLockAndInjectedLockWaitFailure(t *testing.T) {
+	synctest.Test(t, func(t *testing.T) {
+		s := NewServer()
+		ctx := context.Background()
+		pool := newPool(t, s, 3)
+		defer pool.Close()
+		if _, err := pool.Exec(ctx, "CREATE TABLE t (id bigint PRIMARY KEY)"); err != nil {
+			t.Fatal(err)
+		}
+		// a reader waits for a transaction that altered the table and then sees the new schema
+		tx, _ := pool.Begin(ctx)
+		if _, err := tx.Exec(ctx, "ALTER TABLE t ADD COLUMN v bigint NOT NULL DEFAULT 4; INSERT INTO t VALUES (1, 5)"); err != nil {
+			t.Fatal(err)
+		}
+		got := make(chan string, 1)
+		go func() {
+			var v int64
+			err := pool.QueryRow(ctx, "SELECT v FROM t WHERE id = 1").Scan(&v)
+			got <- fmt.Sprint(v, err)
+		}()
+		synctest.Wait()
+		select {
+		case r := <-got:
+			t.Fatal("reader did not wait for the DDL transaction: ", r)
+		default:
+		}
+		if err := tx.Commit(ctx); err != nil {
+			t.Fatal(err)
+		}
+		if r := <-got; r != "5 <nil>" {
+			t.Fatal(r)
+		}
+		// the gate can fail a lock wait
+		s.FaultSQLState = "55P03"
+		s.SetGate(func(r *Request) Action {
+			if r.Kind == ReqLockWait {
+				return FailStmt
+			}
+			return Proceed
+		})
+		tx, _ = pool.Begin(ctx)
+		if _, err := tx.Exec(ctx, "UPDATE t SET v = 6 WHERE id = 1"); err != nil {
+			t.Fatal(err)
+		}
+		_, err := pool.Exec(ctx, "UPDATE t SET v = 7 WHERE id = 1")
+		var pgErr *pgconn.PgError
+		if !errors.As(err, &pgErr) || pgErr.Code != "55P03" {
+			t.Fatal(err)
+		}
+		if err := tx.Commit(ctx); err != nil {
+			t.Fatal(err)
+		}
+		if _, rows := s.Dump("t"); len(rows) != 1 || rows[0][1] != int64(6) {
+			t.Fatal(rows)
+		}
+	})
+}
+
+// TestCloseWhileParked closes a connection whose request is parked in the gate.
+func TestCloseWhileParked(t *testing.T) {
+	synctest.Test(t, func(t *testing.T) {
+		s := NewServer()
+		if err := s.ExecScript("CREATE TABLE t (id bigint PRIMARY KEY)"); err != nil {
+			t.Fatal(err)
+		}
+		ctx := context.Background()
+		pool := newPool(t, s, 1)
+		defer func() {
+			pool.Close()
+			time.Sleep(time.Second) // pgxpool's triggerHealthCheck goroutine sleeps 500ms after a destroyed connection
+		}()
+		conn, err := pool.Acquire(ctx)
+		if err != nil {
+			t.Fatal(err)
+		}
+		if _, err := conn.Exec(ctx, "BEGIN; INSERT INTO t VALUES (1)"); err != nil {
+			t.Fatal(err)
+		}
+		park := make(chan struct{})
+		s.SetGate(func(r *Request) Action { <-park; return Proceed })
+		done := make(chan error, 1)
+		go func() {
+			_, err := conn.Exec(ctx, "INSERT INTO t VALUES (2)")
+			done <- err
+		}()
+		synctest.Wait()
+		if !s.TxOpen(1) {
+			t.Fatal("transaction not open")
+		}
+		s.KillAll() // the client process "crashes" while its request is parked
+		if s.TxOpen(1) {
+			t.Fatal("transaction survived KillAll")
+		}
+		close(park)
+		if err := <-done; err == nil {
+			t.Fatal("parked request was executed after KillAll")
+		}
+		conn.Release()
+		s.SetGate(nil)
+		if _, rows := s.Dump("t"); len(rows) != 0 {
+			t.Fatal(rows)
+		}
+	})
+}
+
+func TestServeTCP(t *testing.T) {
+	l, err := net.Listen("tcp", "127.0.0.1:0")
+	if err != nil {
+		t.Skip("no loopback TCP:", err)
+	}
+	s := NewServer()
+	go s.ServeTCP(l)
+	defer l.Close()
+	ctx := context.Background()
+	pool, err := pgxpool.Connect(ctx, fmt.Sprintf("postgres://u:p@%s/db", l.Addr()))
+	if err != nil {
+		t.Fatal(err)
+	}
+	defer pool.Close()
+	if err := db.InitDB(ctx, pool, "tcp-test", gnosisdb.Definition); err != nil {
+		t.Fatal(err)
+	}
+	exerciseGnosisQueries(t, ctx, pool)
+	// large values cross several TCP segments
+	big := make([]byte, 1<<20)
+	for i := range big {
+		big[i] = byte(i)
+	}
+	if _, err := pool.Exec(ctx, "INSERT INTO decryption_key (eon, epoch_id, decryption_key) VALUES ($1, $2, $3)", int64(1), []byte{1}, big); err != nil {
+		t.Fatal(err)
+	}
+	var back []byte
+	if err := pool.QueryRow(ctx, "SELECT decryption_key FROM decryption_key WHERE eon = 1").Scan(&back); err != nil || !reflect.DeepEqual(back, big) {
+		t.Fatal(len(back), err)
+	}
+}
